@@ -3,8 +3,9 @@ C19 / C10 / C11 — model of wgsl/internal/parser/lexer.go.
 
 The source is a list of Unicode scalar values (the Go lexer decodes UTF-8 rune by rune; the
 model covers valid UTF-8 sources).  `unicode.IsLetter` is a parameter `isLetter` (ASCII behaviour
-is fixed by `isAlpha`).  Positions are modelled exactly as the code computes them, including
-`Column: l.column - (l.pos - l.start)` which subtracts a *byte* count from a *rune* count.
+is fixed by `isAlpha`).  Positions are modelled exactly as the code computes them.  (The pinned
+tree subtracted a *byte* count from the rune-counted column and knew only space/tab/CR/LF as
+blankspace; both were repaired by `fix:` commits and the model follows the repaired code.)
 Core Lean only.
 -/
 namespace Naga.Lexer
@@ -54,7 +55,15 @@ def peekNext : List Char → Char
   | _ :: c :: _ => c
   | _ => Char.ofNat 0
 
-def utf8Len (cs : List Char) : Nat := (cs.map Char.utf8Size).sum
+/-- WGSL blankspace characters skipped by `scanToken` (after the `fix:` commit: the full WGSL set). -/
+def isBlank (c : Char) : Bool :=
+  c == ' ' || c == '\r' || c == '\t' || c == '\n' || c.toNat == 0x0B || c.toNat == 0x0C
+  || c.toNat == 0x85 || c.toNat == 0x200E || c.toNat == 0x200F || c.toNat == 0x2028 || c.toNat == 0x2029
+
+/-- `isLineBreak`: what ends a line comment. -/
+def isLineBreak (c : Char) : Bool :=
+  c == '\n' || c.toNat == 0x0B || c.toNat == 0x0C || c == '\r' || c.toNat == 0x85
+  || c.toNat == 0x2028 || c.toNat == 0x2029
 
 /-- Result of scanning one construct: the optional token kind, the consumed characters, the rest,
 and for comments the line/column after it. -/
@@ -68,20 +77,19 @@ def takeWhileC (p : Char → Bool) : List Char → List Char × List Char
   | [] => ([], [])
   | c :: cs => if p c then let (a, b) := takeWhileC p cs; (c :: a, b) else ([], c :: cs)
 
-/-- Block comment body after the opening `/*`; returns (consumed, rest).  `depth ≥ 1`.
-Structural on the input. -/
-def blockComment : List Char → Nat → List Char × List Char
-  | [], _ => ([], [])
-  | _, 0 => ([], [])   -- unreachable: called with depth ≥ 1 and returns when depth hits 0
-  | '/' :: '*' :: cs, d + 1 =>
-      let (a, b) := blockComment cs (d + 2)
-      ('/' :: '*' :: a, b)
-  | '*' :: '/' :: cs, d + 1 =>
-      if d = 0 then (['*', '/'], cs)
-      else let (a, b) := blockComment cs d; ('*' :: '/' :: a, b)
-  | c :: cs, d + 1 =>
-      let (a, b) := blockComment cs (d + 1)
-      (c :: a, b)
+/-- Block comment body after the opening `/*`: the loop `for depth > 0 && !isAtEnd()`; returns
+(consumed, rest).  Fuel ≥ input length suffices (each iteration consumes at least one character). -/
+def blockCommentF : Nat → List Char → Nat → List Char × List Char
+  | 0, cs, _ => ([], cs)
+  | fuel + 1, cs, d =>
+    if d = 0 then ([], cs) else
+    match cs with
+    | [] => ([], [])
+    | '/' :: '*' :: r => let (a, b) := blockCommentF fuel r (d + 1); ('/' :: '*' :: a, b)
+    | '*' :: '/' :: r => let (a, b) := blockCommentF fuel r (d - 1); ('*' :: '/' :: a, b)
+    | c :: r => let (a, b) := blockCommentF fuel r d; (c :: a, b)
+
+def blockComment (cs : List Char) (d : Nat) : List Char × List Char := blockCommentF (cs.length + 1) cs d
 
 /-- Suffix handling shared by the number scanner: returns the consumed suffix characters. -/
 def floatSuffix : List Char → List Char
@@ -176,14 +184,14 @@ def scanToken (g : Cfg) (c : Char) (cs : List Char) : Scan :=
   else if c == '/' then
     match cs with
     | '/' :: r =>
-      let (body, rest) := takeWhileC (fun x => x != '\n') r
+      let (body, rest) := takeWhileC (fun x => !isLineBreak x) r
       ⟨none, '/' :: '/' :: body, rest⟩
     | '*' :: r =>
       let (body, rest) := blockComment r 1
       ⟨none, '/' :: '*' :: body, rest⟩
     | '=' :: r => ⟨some (.op "/="), ['/', '='], r⟩
     | _ => ⟨some (.op "/"), ['/'], cs⟩
-  else if c == ' ' || c == '\r' || c == '\t' || c == '\n' then ⟨none, [c], cs⟩
+  else if isBlank c then ⟨none, [c], cs⟩
   else if isDigit c then
     let (k, consumed) := number g c cs
     ⟨some k, c :: consumed, cs.drop consumed.length⟩
@@ -200,18 +208,21 @@ def advancePos (line col : Int) : List Char → Int × Int
   | [] => (line, col)
   | c :: cs => if c == '\n' then advancePos (line + 1) 1 cs else advancePos line (col + 1) cs
 
-/-- The lexer main loop; fuel ≥ input length suffices (`lex` below supplies it). -/
-def lexAux (g : Cfg) : Nat → List Char → Int → Int → List Token → List Token
+/-- The lexer main loop, generic in the single-construct scanner; fuel ≥ input length suffices
+(`lex` below supplies it). -/
+def lexAuxG (scan : Char → List Char → Scan) : Nat → List Char → Int → Int → List Token → List Token
   | 0, _, line, col, acc => (⟨.eof, [], line, col⟩ :: acc).reverse
   | _, [], line, col, acc => (⟨.eof, [], line, col⟩ :: acc).reverse
   | fuel + 1, c :: cs, line, col, acc =>
-    let s := scanToken g c cs
+    let s := scan c cs
     let (line', col') := advancePos line col s.consumed
     match s.kind with
     | some k =>
-      -- addToken: Line = l.line, Column = l.column - (l.pos - l.start)   (bytes!)
-      lexAux g fuel s.rest line' col' (⟨k, s.consumed, line', col' - utf8Len s.consumed⟩ :: acc)
-    | none => lexAux g fuel s.rest line' col' acc
+      -- addToken: Line = l.line, Column = l.column - RuneCount(lexeme)   (after the `fix:` commit)
+      lexAuxG scan fuel s.rest line' col' (⟨k, s.consumed, line', col' - s.consumed.length⟩ :: acc)
+    | none => lexAuxG scan fuel s.rest line' col' acc
+
+def lexAux (g : Cfg) := lexAuxG (scanToken g)
 
 def lex (g : Cfg) (src : List Char) : List Token := lexAux g (src.length + 1) src 1 1 []
 
